@@ -106,6 +106,11 @@ def scenario(res, seed, tier):
             specs.append((host, 11211 + i))
     nodes = list(servers)
     kw = dict(socket_module=net, key_prefix=prefix, use_pooling=pooling, default_noreply=False)
+    with_serde = (seed // 7) % 4 == 0
+    if with_serde:
+        # stored values that are None / falsy after deserialisation (negative caching): present is not the same as absent
+        from pymemcache import serde as _serde
+        kw["serde"] = _serde.pickle_serde
     if mode != "rendezvous":
         kw["hasher"] = make_hasher(mode)
     hc = hashmod.HashClient(specs, **kw)
@@ -178,6 +183,8 @@ def scenario(res, seed, tier):
     for arg, rk, raw in keys:
         m = marks()
         val = b"val-" + kb(raw)
+        if with_serde:
+            val = [None, 0, "", b"", False, ("t", kb(raw)), val][len(vals) % 7]
         vals[raw] = val
         r = hc.set(arg, val)
         at = attribute(new_cmds(m), (b"set",))
@@ -225,6 +232,11 @@ def scenario(res, seed, tier):
         if gm != per:
             v("merged-result-differs:gets_many", "gets_many -> %r ; per-key gets -> %r" % (_sh(gm), _sh(per)))
             return
+    if with_serde:
+        # (the later steps append to / count on bytes values)
+        for arg, rk, raw in keys:
+            vals[raw] = b"val-" + kb(raw)
+            hc.set(arg, vals[raw])
     # 3. set_many: each key to its owner exactly once; found by single-key ops afterwards
     if keys:
         newvals = {raw: b"sm-" + kb(raw) for _, _, raw in keys}
